@@ -142,7 +142,7 @@ type Cashout struct {
 	mu      sync.Mutex
 	n       int64
 	OnCash  func(peer boson.Address, issuer, payee common.Address) error // may be nil
-	Receipt func(h common.Hash) (uint64, error)                           // nil => status 1
+	Receipt func(h common.Hash) (uint64, error)                          // nil => status 1
 }
 
 func (c *Cashout) CashCheque(ctx context.Context, peer boson.Address, beneficiary common.Address, recipient common.Address) (common.Hash, error) {
